@@ -83,6 +83,7 @@ type Violation struct {
 	Decisions string            `json:"decisions"`
 	Key       string            `json:"key"`
 	ModelOnly bool              `json:"model_only"`
+	AltInputs []map[string]string `json:"alt_inputs,omitempty"` // further models of the same counterexample path
 }
 
 type PathResult struct {
@@ -883,6 +884,7 @@ func (ex *Exec) resetPath() {
 func (ex *Exec) RunPath(job *Job, prefix []Decision) (res PathResult, alts [][]Decision) {
 	ex.EnsureInit(job.Harness.Pkg)
 	ex.resetPath()
+	ex.ctx.FPExact = job.Meta["fpexact"] == "1"
 	ex.job = job
 	ex.prefix = prefix
 	defer func() {
@@ -954,9 +956,33 @@ func (ex *Exec) violation(kind, msg, site string) *Violation {
 	}
 	if len(want) > 0 {
 		r, m := ex.solver.Check(nil, want)
+		if r != sym.Sat && ex.checkFresh(nil) == sym.Sat {
+			// ask the fresh session (full timeout) for the model
+			r, m = ex.solver2.Check(nil, want)
+		}
 		if r == sym.Sat {
 			for _, in := range ex.inputs {
 				v.Inputs[in.Name] = fmt.Sprintf("%d", m[in.Term])
+			}
+			// a few more models of the same path (uninterpreted float arithmetic
+			// can make the first one spurious natively): block each one found
+			for extra := 0; extra < 3 && kind == "assert"; extra++ {
+				block := sym.False
+				for _, in := range ex.inputs {
+					block = ex.ctx.BOr(block, ex.ctx.BNot(ex.ctx.Cmp(sym.OEq, in.Term, sym.Const(in.Term.W, m[in.Term]))))
+				}
+				ex.pcTerms = append(ex.pcTerms, block)
+				ex.solver.Assert(block)
+				r2, m2 := ex.solver.Check(nil, want)
+				if r2 != sym.Sat {
+					break
+				}
+				alt := map[string]string{}
+				for _, in := range ex.inputs {
+					alt[in.Name] = fmt.Sprintf("%d", m2[in.Term])
+				}
+				v.AltInputs = append(v.AltInputs, alt)
+				m = m2
 			}
 		} else {
 			v.Msg += " (no model: " + r.String() + ")"
